@@ -247,6 +247,21 @@ class Body:
             st.extend(t for (t, _) in self.succ[x] if (x, t) not in self.back)
         return False
 
+    def can_return(self, bb):
+        """some path from bb reaches the function's return (false for blocks that can only end in a panic / abort / endless loop)"""
+        cr = getattr(self, "_can_return", None)
+        if cr is None:
+            cr = set(i for i in self.reach if self.blocks[i]["term"] and self.blocks[i]["term"]["k"] == "return")
+            work = list(cr)
+            while work:
+                y = work.pop()
+                for (p_, _l) in self.pred[y]:
+                    if p_ not in cr:
+                        cr.add(p_)
+                        work.append(p_)
+            self._can_return = cr
+        return bb in cr
+
     def loops_of(self, bb):
         """loop heads whose natural loop contains bb, outermost first"""
         hs = [h for h, body in self.loops.items() if bb in body]
@@ -594,6 +609,8 @@ def mk_un(op, a):
 
 # ------------------------------------------------------------------ call models
 
+INT_TYPES = ("u8", "u16", "u32", "u64", "u128", "usize", "i8", "i16", "i32", "i64", "i128", "isize")
+
 IDENTITY = {
     "std::clone::Clone::clone",
     "std::borrow::ToOwned::to_owned",
@@ -625,6 +642,9 @@ IDENTITY = {
     "std::boxed::box_assume_init_into_vec_unsafe",
     "core::slice::<impl [T]>::into_vec",
     "std::slice::<impl [T]>::into_vec",
+    "core::slice::<impl [T]>::to_vec",
+    "std::slice::<impl [T]>::to_vec",
+    "std::vec::Vec::<T>::from",
     "core::fmt::rt::Argument::<'_>::new_display",
     "core::fmt::rt::Argument::<'_>::new_debug",
     "std::hint::must_use",
@@ -689,6 +709,12 @@ def model_call(crate, fn, args, site, term=None):
             and term["dest"]["ty"] == "std::string::String":
         # a fresh String object: identity = creation site (two buffers with equal initial text stay distinct)
         return ("obj", "String", args[0], site)
+    if path in ("std::convert::From::from", "std::convert::Into::into") and len(args) == 1:
+        # a lossless conversion between primitive integer types (`u16::from(x)`, `x.into()`) is the widening cast `x as u16`
+        ga = fn.get("gargs") or []
+        if len(ga) == 2 and all(g in INT_TYPES for g in ga) and ga[0] != ga[1]:
+            dst, srcty = (ga[0], ga[1]) if path.endswith("::from") else (ga[1], ga[0])
+            return ("cast", args[0], dst, srcty)
     if path in IDENTITY and args:
         return args[0]
     if path in UNWRAP_SOME and args:
@@ -872,7 +898,8 @@ def show(t, names=None):
     if k == "elem":
         if t[1][0] == "iter":
             n = names.get(("tag", t[1][2]))
-            return "%s[*#%s]" % (show(t[1][1], names), n if n is not None else "?")
+            before = "<" if isinstance(t[1][2], tuple) and t[1][2] and t[1][2][0] == "tag-flag<" else ""  # an element earlier in the list than the current one
+            return "%s[*%s#%s]" % (show(t[1][1], names), before, n if n is not None else "?")
         return show(t[1], names) + "[*]"
     if k == "iter":
         return show(t[1], names)
@@ -1038,6 +1065,9 @@ def short_fn(p):
 # ------------------------------------------------------------------ atoms from guards
 
 
+VARIANT_UNIVERSE = {}  # subject term of a discriminant switch -> names of all variants of its (enum) type
+
+
 def switch_atom(body, sw, labels):
     """interpret (switch block, label set) as (term, positive description)"""
     t = body.blocks[sw]["term"]
@@ -1049,6 +1079,8 @@ def switch_atom(body, sw, labels):
         if adt:
             for v in adt["variants"]:
                 names[v["discr"] if v["discr"] is not None else v["vi"]] = v["name"]
+        if adt and adt.get("kind") == "enum" and names:
+            VARIANT_UNIVERSE[d[1]] = tuple(sorted(names.values()))
         explicit = set(l for l in allv if l != "else")
         pos = set()
         neg = None
